@@ -632,6 +632,10 @@ def run(ctx, out, tier):
     shared.run_renamed(out, lambda o: _check_content(ctx, o), "C03", "C09")
     from rules.C04 import check_content_range as _check_content_range
     _check_content_range(ctx, out, rule="C09.contentrange")
+    # a block is only judged if its file is parsed at all: no successful return of the file parser without parsing but
+    # "no grammar for this name" (shared with C12)
+    from rules.C12 import check_noskip as _check_noskip
+    _check_noskip(ctx, out, "C09.noskip")
     # what a validator found is only reported if the report keeps every violation (shared with C11)
     from rules.C11 import check_items as _check_items
     shared.run_renamed(out, lambda o: _check_items(ctx, o), "C11", "C09")
